@@ -352,6 +352,8 @@ where
 /// Implements a [`quic::RecvStream`] backed by a [`quinn::RecvStream`].
 pub struct RecvStream {
     stream: Option<quinn::RecvStream>,
+    // The stream is moved into `read_chunk_fut` while a read is pending: its id is kept here
+    id: quinn::StreamId,
     read_chunk_fut: ReadChunkFuture,
     is_0rtt: bool,
     pending_stop: Option<VarInt>,
@@ -369,6 +371,7 @@ impl RecvStream {
     fn new(stream: quinn::RecvStream) -> Self {
         let is_0rtt = stream.is_0rtt();
         Self {
+            id: stream.id(),
             stream: Some(stream),
             // Should only allocate once the first time it's used
             read_chunk_fut: ReusableBoxFuture::new(async { unreachable!() }),
@@ -415,7 +418,7 @@ impl quic::RecvStream for RecvStream {
 
     #[cfg_attr(feature = "tracing", instrument(skip_all, level = "trace"))]
     fn recv_id(&self) -> StreamId {
-        let num: u64 = self.stream.as_ref().unwrap().id().into();
+        let num: u64 = self.id.into();
 
         num.try_into().expect("invalid stream id")
     }
